@@ -70,7 +70,9 @@ Print Assumptions C08_warm_output_machine.
     counter from the record of step r.  For every well-formed set-up and every restart step r at which a
     record is due: the uninterrupted run's records are [before ++ rec_r :: rest], and the restarted run, with
     its record steps relabelled by +r, did not fail, holds the same particles (row, pid, liveness, values up to
-    == on the rationals) and wrote the same records as [rest]. *)
+    == on the rationals) and wrote the same records as [rest].
+    The physics of the set-up includes LAND cells along the particle line ([s_land]): u-faces next to land
+    masked to zero, moves onto land cancelled, death outside the valid interval (stated in Props/C09.v). *)
 From Coq Require Import QArith.
 Open Scope Z_scope.
 From Ladim Require Import Model.Time Model.Setup Model.SetupWarm Proofs.SimRelProofs Proofs.SimShiftProofs Proofs.SetupProofs Proofs.SetupRestartProofs.
@@ -98,6 +100,23 @@ Example C08_closed_ex :
   setup_ok s = true /\ dir_ok (s_tk s) = true /\ s_due s r = true /\ s_nsteps s = 6 /\ np = 3 /\
   s_tk (warm_setup s r) = {| start := 2400; stop := 0; dt := 600; ref := 0; rev := true |} /\
   show_run restarted = [(2, [(0, 0, (21 # 8)%Q, 4, 20%Q); (1, 1, (45 # 8)%Q, 2, 20%Q); (2, 1, (45 # 8)%Q, 2, 20%Q)])] /\
+  show_run (relabel pv Z r restarted) = skipn 2 (show_run (m_run s)).
+Proof. vm_compute. repeat split. Qed.
+
+(** non-vacuity, LAND: [ex_setup_land] (land in cell 4, output at every step) restarted after its record of step
+    1 — the restarted run cancels the second move of the particle at x = 5 as the uninterrupted run does, then
+    moves it through the masked flow *)
+Example C08_closed_land_ex :
+  let s := ex_setup_land in let r := 1 in
+  let step := sim_step pv Z (m_release s) (m_force s) s_cache (m_track s) (ibm s) (s_due s) in
+  let before := fold_left step (zrange 0 r) (sim_init pv Z) in
+  let rec_r := snapshot pv r (after_release pv Z (m_release s) (m_force s) before false r) in
+  let np := npid before + Z.of_nat (length (m_release s r)) in
+  let restarted := m_warm_run (warm_setup s r) (relabel_rec pv (- r) rec_r) np in
+  s_land (warm_setup s r) = [4] /\ setup_ok s = true /\ dir_ok (s_tk s) = true /\ s_due s r = true /\ s_nsteps s = 6 /\ np = 1 /\
+  map (fun x : rec pv => (rstep x, map (fun y : Z * Z * pv => Qred (vx (snd y))) (rrows x))) (recs restarted) =
+    [(1, [5%Q; 6%Q; 6%Q]); (2, [(73 # 16)%Q; (89 # 16)%Q; (89 # 16)%Q]);
+     (3, [(579 # 128)%Q; (21 # 4)%Q; (21 # 4)%Q]); (4, [(4623 # 1024)%Q; (327 # 64)%Q; (327 # 64)%Q])] /\
   show_run (relabel pv Z r restarted) = skipn 2 (show_run (m_run s)).
 Proof. vm_compute. repeat split. Qed.
 
